@@ -68,6 +68,7 @@ theorem ApiStep.path {s s' : Streams} {w w' : Writer} (st : ApiStep s w s' w') :
   | recvPollResponse n k t => exact recvPollResponse_acc hg n k t trivial t0
   | recvPollInformational k t => exact recvPollInformational_acc hg k t trivial t0
   | refPollData k t => exact refPollData_acc hg k t trivial t0
+  | refPollPushed k t => exact refPollPushed_acc hg k t (fun _ => trivial) t0
   | recvPollTrailers k t => exact recvPollTrailers_acc hg k t trivial t0
   | refReleaseCapacity k c => exact refReleaseCapacity_acc hg k c t0
   | refClearRecvBuffer k => exact refClearRecvBuffer_acc hg k trivial t0
